@@ -981,7 +981,7 @@ class Series(ContainerOperand):
         if not np.any(sel):
             return self
 
-        if hasattr(value, '__iter__') and not isinstance(value, str):
+        if hasattr(value, '__iter__') and not isinstance(value, (str, bytes)):
             if not isinstance(value, Series):
                 raise RuntimeError('unlabeled iterables cannot be used for fillna: use a Series')
             value_dtype = value.dtype
@@ -2463,7 +2463,7 @@ class SeriesAssign(Assign):
 
         if value.__class__ is np.ndarray:
             value_dtype = value.dtype
-        elif hasattr(value, '__len__') and not isinstance(value, str):
+        elif hasattr(value, '__len__') and not isinstance(value, (str, bytes)):
             value, _ = iterable_to_array_1d(value)
             value_dtype = value.dtype
         else:
